@@ -7,9 +7,14 @@
 
   Proofs: Lemmas/BpeL5 (`mergeWordSpec_concat`, on top of C03's `mergeWordImpl = mergeWordSpec`)
   and Lemmas/SplitL (`splitWords_flatten`).
+
+  End to end (Lemmas/BpeE2E): `bpe_roundtrip` — for every configuration accepted by `mkBpeCfg`
+  (any `max_vocab_size`), `tokenize` then `de_tokenize` (special tokens ignored) returns the text
+  without its trailing white space, as valid UTF-8, and every emitted id is a vocabulary id.
 -/
 import TuModel.Lemmas.BpeL5
 import TuModel.Lemmas.SplitL
+import TuModel.Lemmas.BpeE2E
 namespace Tu.C02
 open Tu
 
@@ -55,5 +60,85 @@ example : ∃ ids, mergeWordImpl [([97, 98], 0), ([99, 100], 1), ([97, 98, 99], 
   mergeWordImpl_concat _ _ (by decide) (by decide)
 example : (splitWords [32, 97, 98, 32, 32, 99, 32]).flatten = [32, 97, 98, 32, 32, 99] := by
   rw [splitWords_flatten]; decide
+
+/-! ### end to end: `tokenize` then `de_tokenize` -/
+
+/-- the UTF-8 encoding of scalar values is valid UTF-8 and consists of bytes -/
+theorem utf8_bytes (c : Nat) (hc : isScalar c = true) : ∀ b ∈ utf8 c, b < 256 :=
+  Tu.utf8_bytes' c hc
+
+theorem validUtf8_utf8 (cps : List Nat) (h : ∀ c ∈ cps, isScalar c = true) :
+    validUtf8 (cps.flatMap utf8) = true :=
+  Tu.validUtf8_utf8' cps h
+
+/-- truncation by max_vocab_size keeps a well-formed table well-formed -/
+theorem truncateTable_wf (t : MTable) (mv : Option Nat) (k : Nat) (h : wfTable t = true) :
+    wfTable (truncateTable t mv k) = true :=
+  Tu.truncateTable_wf' t mv k h
+
+theorem dropTrailingWs_mem (cps : List Nat) (c : Nat) (h : c ∈ dropTrailingWs cps) : c ∈ cps :=
+  Tu.mem_dropTrailing cps c h
+
+/-- text level: the ids of a text decode to the text without its trailing whitespace -/
+theorem mergeText_decode (t : MTable) (hwf : wfTable t = true) (cps : List Nat)
+    (hs : ∀ c ∈ cps, isScalar c = true) :
+    ∃ ids, mergeText t cps = some ids ∧ ids.flatMap (idBytes t) = (dropTrailingWs cps).flatMap utf8 ∧
+      ∀ id ∈ ids, id < 256 + t.length := by
+  have hw : ∀ w ∈ splitWords cps, ∃ ids, mergeWordImpl t (w.flatMap utf8) = some ids ∧
+      ids.flatMap (idBytes t) = w.flatMap utf8 ∧ ∀ id ∈ ids, id < 256 + t.length := by
+    intro w hw
+    apply mergeWordImpl_concat t (w.flatMap utf8) hwf
+    intro b hb
+    obtain ⟨c, hc, hbc⟩ := List.mem_flatMap.mp hb
+    have hc' : c ∈ (splitWords cps).flatten := List.mem_flatten.mpr ⟨w, hw, hc⟩
+    rw [splitWords_flatten] at hc'
+    exact utf8_bytes c (hs c (dropTrailingWs_mem cps c hc')) b hbc
+  obtain ⟨idss, h1, h2, h3⟩ := mapM_flatten_decode (fun w => mergeWordImpl t (w.flatMap utf8)) (idBytes t)
+    (fun w => w.flatMap utf8) (fun id => id < 256 + t.length) (splitWords cps) hw
+  refine ⟨idss.flatten, ?_, ?_, h3⟩
+  · unfold mergeText; rw [h1]; rfl
+  · rw [h2, flatMap_flatten_utf8, splitWords_flatten]
+
+/-- **BPE tokenization is lossless**: for every configuration accepted by the constructor (well-formed table, any
+max_vocab_size, prefix / suffix lists), tokenizing a text with special tokens ignored and decoding with special tokens
+ignored returns the text without its trailing whitespace, as valid UTF-8; every emitted id is a vocabulary id -/
+theorem bpe_roundtrip (t : MTable) (mv : Option Nat) (tokens : List (List Nat)) (pad : List Nat) (pre suf : List (List Nat))
+    (cfg : BpeCfg) (hcfg : mkBpeCfg t mv tokens pad pre suf = some cfg) (hwf : wfTable t = true)
+    (cps : List Nat) (hs : ∀ c ∈ cps, isScalar c = true) :
+    ∃ ids, bpeTokenize cfg [Sum.inl cps] = some ids ∧
+      bpeDetok cfg ids true = some ((dropTrailingWs cps).flatMap utf8) ∧ ∀ id ∈ ids, id < bpeVocabSize cfg := by
+  obtain ⟨htab, hsp⟩ := mkBpeCfg_spec hcfg
+  have hwf' : wfTable cfg.table = true := by rw [htab]; exact truncateTable_wf t mv _ hwf
+  obtain ⟨ho, _, hpre, hsuf, _⟩ := mkSpecial_ids hsp
+  obtain ⟨m, hm1, hm2, hm3⟩ := mergeText_decode cfg.table hwf' cps hs
+  refine ⟨cfg.sp.prefixIds ++ m ++ cfg.sp.suffixIds, ?_, ?_, ?_⟩
+  · simp [bpeTokenize, hm1]
+  · have e1 : bpeDetokBytes cfg true cfg.sp.prefixIds = some [] :=
+      bpeDetokBytes_skip cfg _ (fun id hid => by have := (hpre id hid).1; omega)
+    have e2 : bpeDetokBytes cfg true cfg.sp.suffixIds = some [] :=
+      bpeDetokBytes_skip cfg _ (fun id hid => by have := (hsuf id hid).1; omega)
+    have e3 : bpeDetokBytes cfg true m = some (m.flatMap (idBytes cfg.table)) :=
+      bpeDetokBytes_regular cfg true (tbytes_isSome_of_wf hwf') m hm3
+    have e : bpeDetokBytes cfg true (cfg.sp.prefixIds ++ m ++ cfg.sp.suffixIds)
+        = some ((dropTrailingWs cps).flatMap utf8) := by
+      rw [bpeDetokBytes_append, bpeDetokBytes_append, e1, e2, e3, hm2]; simp
+    have hv : validUtf8 ((dropTrailingWs cps).flatMap utf8) = true :=
+      validUtf8_utf8 _ (fun c hc => hs c (dropTrailingWs_mem cps c hc))
+    unfold bpeDetok
+    rw [e]; simp [hv]
+  · intro id hid
+    unfold bpeVocabSize
+    simp only [List.mem_append] at hid
+    rcases hid with (hid | hid) | hid
+    · have := special_id_lt cfg.sp id (hpre id hid).2; omega
+    · have := hm3 id hid; omega
+    · have := special_id_lt cfg.sp id (hsuf id hid).2; omega
+
+/-! non-vacuity of the end-to-end statement -/
+example : ∃ cfg, mkBpeCfg [([97, 98], 0), ([99, 100], 1), ([97, 98, 99], 2), ([97, 98, 99, 100], 3)] (some 260)
+    [[60, 115, 62], [60, 112, 62]] [60, 112, 62] [[60, 115, 62]] [[60, 112, 62]] = some cfg ∧
+    bpeTokenize cfg [Sum.inl [97, 98, 99, 100, 32, 233, 32]] = some [258, 256, 257, 32, 195, 169, 259] ∧
+    bpeDetok cfg [258, 256, 257, 32, 195, 169, 259] true = some [97, 98, 99, 100, 32, 195, 169] := by
+  refine ⟨_, rfl, ?_, ?_⟩ <;> decide
 
 end Tu.C02
